@@ -11,6 +11,9 @@ Lines (the same translation units serve C13 and C14; only the table name differs
     cap <type>                    => <n>                     to_chars_capacity<type>{}()
     fix <type> <v>                => <length>:<array>|<to_string>|<operator<<>|<ec>:<ptr>:<buffer at capacity>
     fixb <T> <base> <v>           => <length>:<array>                                   to_chars_static<base>(v)
+    fixbw <D> <base> <name>       => <length>:<array>         to_chars_static<base> on wide_integer<D, int>; the value is named
+    capb <T> <base>               => <n>                      to_chars_capacity<T>{}(base)
+    capwb <D> <s|u> <base>        => <n>                      to_chars_capacity<wide_integer<D, int|unsigned>>{}(base)
 
 `<ec>` is `ok` or `big` (value_too_large), `<ptr>` the offset of the returned pointer from `first`
 (`null` for a null pointer), `<buffer>` the bytes of 4 guard cells, the `len` cells and 4 guard cells
@@ -119,6 +122,41 @@ def tcHasE (r : Res TCR) : Bool :=
   | .ok t => t.buf.cells.contains (some 'e')
   | _ => false
 
+/-- known-defect class `input_radix_above_ten`: a positive exponent with an input radix above ten, and the run
+did not return (`significand *= radix` overflowed — undefined — or wrapped to zero and the loop never ends) -/
+def tcRadixTag (e : Int) (radix : Nat) (returned : Bool) : String :=
+  if radix > 10 ∧ e > 0 ∧ returned = false then "input_radix_above_ten" else ""
+
+/-- `wide_integer<D, int>` is modelled as a signed type of `D + 1` bits, `wide_integer<D, unsigned>` as `D` bits -/
+def tcWideTy (d : Nat) (sg : String) : IntTy := if sg == "s" then ⟨d + 1, true⟩ else ⟨d, false⟩
+
+/-- the named values of the `fixbw` lines (`max = 2^D - 1`, `half = 2^(D-1)`) -/
+def tcWideVal (d : Nat) (name : String) : Option Int :=
+  match name with
+  | "max" => some (2 ^ d - 1)
+  | "-max" => some (-(2 ^ d - 1))
+  | "1" => some 1
+  | "-1" => some (-1)
+  | "half" => some (2 ^ (d - 1))
+  | "-half" => some (-(2 ^ (d - 1)))
+  | _ => none
+
+/-- `to_chars_static<base>(v)`: `<length>:<array of capacity(base) + 1 cells>` -/
+def tcFixb (T : IntTy) (base : Nat) (v : Int) (br : String) : String × String × String :=
+  let tx := intStaticTextBase T base v
+  let m := match tx with
+    | .ok txt =>
+      let arr := txt ++ List.replicate (intCapacityB T base + 1 - txt.length) (Char.ofNat 0)
+      toString txt.length ++ ":" ++ tcEncChars arr
+    | o => showRes (fun _ => "") o
+  -- (the class `static_capacity_ignores_base` is repaired: a recurrence is a VIOLATION)
+  let tag := if tcIsMostNegMsgT tx then "most_negative_integer" else ""
+  (m, tag, br ++ (if tx.isOk then "ok" else "assert"))
+
+/-- the longest numeral of a type in a base: the lowest value for a signed type (sign included), else the maximum -/
+def tcLongest (T : IntTy) (base : Nat) : Nat :=
+  max (intText base T.lowest).length (intText base T.max).length
+
 /-- model evaluation of a protocol line, shared by C13 and C14:
 `(model string, known-defect tag, branch, len)` -/
 def evalCharconv (toks : List String) : Option (String × String × String) :=
@@ -132,12 +170,22 @@ def evalCharconv (toks : List String) : Option (String × String × String) :=
     let .sc T e x ← parseTcTyK t | none
     let len ← len.toNat?; let rep ← rep.toInt?
     let r := scaledToChars T e x len rep
-    some (showRes tcShowTCR r, if tcIsMostNegMsg r then "most_negative_integer" else "", "sc/" ++ tcBranchOf r (tcHasE r))
+    some (showRes tcShowTCR r, if tcIsMostNegMsg r then "most_negative_integer" else tcRadixTag e x r.isOk,
+      "sc/" ++ tcBranchOf r (tcHasE r))
   | ["capw", d, sg] => do
     -- to_chars_capacity<wide_integer<D, int|unsigned>>: same formula over the declared digits
     let d ← d.toNat?
     let T : IntTy := if sg == "s" then ⟨d + 1, true⟩ else ⟨d, false⟩
     some (toString (intCapacity T), "", "cap/wide")
+  | ["capwb", d, sg, base] => do
+    let d ← d.toNat?; let base ← base.toNat?
+    some (toString (intCapacityB (tcWideTy d sg) base), "", "capb/wide")
+  | ["capb", t, base] => do
+    let T ← parseIntTy t; let base ← base.toNat?
+    some (toString (intCapacityB T base), "", "capb/int")
+  | ["fixbw", d, base, name] => do
+    let d ← d.toNat?; let base ← base.toNat?; let v ← tcWideVal d name
+    some (tcFixb (tcWideTy d "s") base v "fixbw/")
   | ["cap", t] => do
     match ← parseTcTyK t with
     | .int T => some (toString (intCapacity T), "", "cap/int")
@@ -152,19 +200,17 @@ def evalCharconv (toks : List String) : Option (String × String × String) :=
     | .sc T e x =>
       let tx := scaledStaticText T e x v
       some (tcShowFix (scaledCapacity T e x) tx (scaledToChars T e x (scaledCapacity T e x).toNat v),
-        if tcIsMostNegMsgT tx then "most_negative_integer" else "", "fix/sc")
+        if tcIsMostNegMsgT tx then "most_negative_integer" else tcRadixTag e x tx.isOk, "fix/sc")
   | ["fixb", t, base, v] => do
     let T ← parseIntTy t; let base ← base.toNat?; let v ← v.toInt?
-    let tx := intStaticTextBase T base v
-    let m := match tx with
-      | .ok txt =>
-        let arr := txt ++ List.replicate (intCapacity T + 1 - txt.length) (Char.ofNat 0)
-        toString txt.length ++ ":" ++ tcEncChars arr
-      | o => showRes (fun _ => "") o
-    let tag := if tcIsMostNegMsgT tx then "most_negative_integer"
-      else if (intText base v).length > intCapacity T then "static_capacity_ignores_base" else ""
-    some (m, tag, "fixb/" ++ (if tx.isOk then "ok" else "assert"))
+    some (tcFixb T base v "fixb/")
   | _ => none
+
+/-- to_chars_static<Base> succeeds for every value: `<length>:<array>` with a positive length -/
+def tcFixbGood (res : String) : Bool :=
+  match res.splitOn ":" with
+  | n :: _ :: _ => (n.toNat?.getD 0) > 0
+  | _ => false
 
 def checkC13 (toks : List String) (res : String) : Option Verdict := do
   let (m, tag, br) ← evalCharconv toks
@@ -182,12 +228,15 @@ def checkC13 (toks : List String) (res : String) : Option Verdict := do
     let d ← d.toNat?
     let need := (toString (2^d - 1 : Nat)).length + (if sg == "s" then 1 else 0)
     some { model := m, spec := some ((res.toNat?.getD 0) ≥ need), branch := br }
-  | ["fixb", _, _, _] =>
-    -- to_chars_static<Base> succeeds for every value: `<length>:<array>` with a positive length
-    let good := match res.splitOn ":" with
-      | n :: _ :: _ => (n.toNat?.getD 0) > 0
-      | _ => false
-    some { model := m, spec := some good, cls := cls, branch := br }
+  | ["capb", t, base] =>
+    -- the fixed capacity must hold the longest numeral of the type in that base
+    let T ← parseIntTy t; let base ← base.toNat?
+    some { model := m, spec := some ((res.toNat?.getD 0) ≥ tcLongest T base), branch := br }
+  | ["capwb", d, sg, base] =>
+    let d ← d.toNat?; let base ← base.toNat?
+    some { model := m, spec := some ((res.toNat?.getD 0) ≥ tcLongest (tcWideTy d sg) base), branch := br }
+  | ["fixb", _, _, _] => some { model := m, spec := some (tcFixbGood res), cls := cls, branch := br }
+  | ["fixbw", _, _, _] => some { model := m, spec := some (tcFixbGood res), cls := cls, branch := br }
   | ["fix", _, _] =>
     -- the fixed-capacity variants succeed for every value: four fields, the last an `ok` result inside its buffer
     let good := match res.splitOn "|" with
